@@ -18,8 +18,8 @@ use crate::types::{
 };
 use std::borrow::Cow;
 use crate::ordering::{
-    compare_bigint, compare_bigint_float, compare_bigint_int, compare_float_bigint,
-    compare_float_int, compare_int_bigint, compare_int_float,
+    compare_bigint, compare_bigint_float, compare_bigint_int, compare_bitstrings,
+    compare_float_bigint, compare_float_int, compare_int_bigint, compare_int_float,
 };
 use std::cmp::Ordering;
 use std::collections::BTreeMap;
@@ -500,63 +500,16 @@ impl<'a> Ord for BorrowedTerm<'a> {
                         Ordering::Equal
                     })
                 }
-                (BorrowedTerm::Nil, BorrowedTerm::Nil) => Ordering::Equal,
-                (BorrowedTerm::List(a), BorrowedTerm::List(b)) => {
-                    for (x, y) in a.iter().zip(b.iter()) {
-                        match x.cmp(y) {
-                            Ordering::Equal => continue,
-                            other => return other,
-                        }
-                    }
-                    a.len().cmp(&b.len())
-                }
-                (BorrowedTerm::List(a), BorrowedTerm::Nil) => {
-                    if a.is_empty() {
-                        Ordering::Equal
-                    } else {
-                        Ordering::Greater
+                (a, b) if borrowed_list_parts(a).is_some() && borrowed_list_parts(b).is_some() => {
+                    match (borrowed_list_parts(a), borrowed_list_parts(b)) {
+                        (Some((a, ta)), Some((b, tb))) => compare_borrowed_lists(a, ta, b, tb),
+                        _ => Ordering::Equal,
                     }
                 }
-                (BorrowedTerm::Nil, BorrowedTerm::List(b)) => {
-                    if b.is_empty() {
-                        Ordering::Equal
-                    } else {
-                        Ordering::Less
-                    }
-                }
-                (
-                    BorrowedTerm::ImproperList {
-                        elements: a,
-                        tail: ta,
-                    },
-                    BorrowedTerm::ImproperList {
-                        elements: b,
-                        tail: tb,
-                    },
-                ) => {
-                    for (x, y) in a.iter().zip(b.iter()) {
-                        match x.cmp(y) {
-                            Ordering::Equal => continue,
-                            other => return other,
-                        }
-                    }
-                    a.len().cmp(&b.len()).then_with(|| ta.cmp(tb))
-                }
-                (BorrowedTerm::Binary(a), BorrowedTerm::Binary(b)) => a.cmp(b),
-                (BorrowedTerm::String(a), BorrowedTerm::String(b)) => a.cmp(b),
-                (BorrowedTerm::Binary(a), BorrowedTerm::String(b)) => a.as_ref().cmp(b.as_bytes()),
-                (BorrowedTerm::String(a), BorrowedTerm::Binary(b)) => a.as_bytes().cmp(b.as_ref()),
-                (
-                    BorrowedTerm::BitBinary {
-                        bytes: a,
-                        bits: abits,
-                    },
-                    BorrowedTerm::BitBinary {
-                        bytes: b,
-                        bits: bbits,
-                    },
-                ) => a.cmp(b).then_with(|| abits.cmp(bbits)),
-                _ => Ordering::Equal,
+                (a, b) => match (borrowed_bitstring_parts(a), borrowed_bitstring_parts(b)) {
+                    (Some((a, abits)), Some((b, bbits))) => compare_bitstrings(a, abits, b, bbits),
+                    _ => Ordering::Equal,
+                },
             },
             other => other,
         }
@@ -592,6 +545,79 @@ impl<'a> Index<&BorrowedTerm<'a>> for BorrowedTerm<'a> {
             BorrowedTerm::Map(m) => m.get(key).unwrap_or_else(|| panic!("key not found in map")),
             _ => panic!("cannot index {} with a key", self.type_name()),
         }
+    }
+}
+
+type BorrowedListParts<'t, 'a> = (&'t [BorrowedTerm<'a>], Option<&'t BorrowedTerm<'a>>);
+
+/// Elements and (for improper lists) the tail of any list-like term.
+fn borrowed_list_parts<'t, 'a>(term: &'t BorrowedTerm<'a>) -> Option<BorrowedListParts<'t, 'a>> {
+    match term {
+        BorrowedTerm::Nil => Some((&[], None)),
+        BorrowedTerm::List(elements) => Some((elements, None)),
+        BorrowedTerm::ImproperList { elements, tail } => Some((elements, Some(tail))),
+        _ => None,
+    }
+}
+
+/// Bytes and number of used bits in the last byte of any bit-string-like term.
+fn borrowed_bitstring_parts<'t>(term: &'t BorrowedTerm<'_>) -> Option<(&'t [u8], u8)> {
+    match term {
+        BorrowedTerm::Binary(bytes) => Some((bytes.as_ref(), 8)),
+        BorrowedTerm::String(s) => Some((s.as_bytes(), 8)),
+        BorrowedTerm::BitBinary { bytes, bits } => Some((bytes.as_ref(), *bits)),
+        _ => None,
+    }
+}
+
+/// Erlang list order: element by element, then the rests (a shorter list or the tail term).
+fn compare_borrowed_lists<'a>(
+    a: &[BorrowedTerm<'a>],
+    a_tail: Option<&BorrowedTerm<'a>>,
+    b: &[BorrowedTerm<'a>],
+    b_tail: Option<&BorrowedTerm<'a>>,
+) -> Ordering {
+    for (x, y) in a.iter().zip(b.iter()) {
+        match x.cmp(y) {
+            Ordering::Equal => continue,
+            other => return other,
+        }
+    }
+    let common = a.len().min(b.len());
+    let (a, b) = (&a[common..], &b[common..]);
+    match (a.is_empty(), b.is_empty()) {
+        (true, true) => match (a_tail, b_tail) {
+            (None, None) => Ordering::Equal,
+            (Some(t), None) => t.cmp(&BorrowedTerm::Nil),
+            (None, Some(t)) => BorrowedTerm::Nil.cmp(t),
+            (Some(ta), Some(tb)) => ta.cmp(tb),
+        },
+        (true, false) => compare_borrowed_rest_with_cons(a_tail, b, b_tail),
+        (false, true) => compare_borrowed_rest_with_cons(b_tail, a, a_tail).reverse(),
+        (false, false) => Ordering::Equal,
+    }
+}
+
+/// Compares the rest of an exhausted list (`None` is `[]`) with a non-empty rest of another list.
+fn compare_borrowed_rest_with_cons<'a>(
+    rest: Option<&BorrowedTerm<'a>>,
+    elements: &[BorrowedTerm<'a>],
+    tail: Option<&BorrowedTerm<'a>>,
+) -> Ordering {
+    match rest {
+        None => Ordering::Less,
+        Some(term) => match borrowed_list_parts(term) {
+            Some((rest_elements, rest_tail)) => {
+                compare_borrowed_lists(rest_elements, rest_tail, elements, tail)
+            }
+            // every other type sorts before lists except bit strings
+            None => match term {
+                BorrowedTerm::Binary(_)
+                | BorrowedTerm::BitBinary { .. }
+                | BorrowedTerm::String(_) => Ordering::Greater,
+                _ => Ordering::Less,
+            },
+        },
     }
 }
 
